@@ -2,15 +2,15 @@ import ExprModel.Code.WfStatic
 /-
 C05, part 1: linear decoding inverts encoding for instructions whose operands fit 16 bits.
 -/
-namespace ExprModel
+namespace ExprModel.Bc
 
-theorem Instr.size_pos (i : Instr) : 0 < i.size := by
+theorem instr_size_pos (i : Instr) : 0 < i.size := by
   unfold Instr.size; split <;> omega
 
-theorem Instr.size_le_three (i : Instr) : i.size ≤ 3 := by
+theorem instr_size_le_three (i : Instr) : i.size ≤ 3 := by
   unfold Instr.size; split <;> omega
 
-theorem Instr.encode_length (i : Instr) : i.encode.length = i.size := by
+theorem instr_encode_length (i : Instr) : i.encode.length = i.size := by
   unfold Instr.encode Instr.size; split <;> simp
 
 @[simp] theorem codeSize_nil : codeSize [] = 0 := rfl
@@ -33,12 +33,12 @@ theorem encodeAll_append (a b : List Instr) : encodeAll (a ++ b) = encodeAll a +
 theorem codeSize_eq_length (is : List Instr) : (encodeAll is).length = codeSize is := by
   induction is with
   | nil => rfl
-  | cons i is ih => simp [Instr.encode_length, ih]
+  | cons i is ih => simp [instr_encode_length, ih]
 
 theorem length_le_codeSize (is : List Instr) : is.length ≤ codeSize is := by
   induction is with
   | nil => simp
-  | cons i is ih => have := i.size_pos; simp; omega
+  | cons i is ih => have := instr_size_pos i; simp; omega
 
 /-- operands as the code can store them: 16 bits -/
 def FitsU16 (is : List Instr) : Prop := ∀ i ∈ is, i.arg < 65536
@@ -81,4 +81,4 @@ theorem decode_encode (is : List Instr) (hfit : FitsU16 is) (hcan : ArgCanon is)
     decodeAll (encodeAll is).length (encodeAll is) = some is :=
   decode_encode_fuel is hfit hcan _ (by rw [codeSize_eq_length]; exact length_le_codeSize is)
 
-end ExprModel
+end ExprModel.Bc
